@@ -9,7 +9,7 @@ from dom_expand import B, field
 MODE = 'expandg'
 
 MARKUP_ABBRS = ['ul>li.item$*3', 'a', 'div.b_m>p.-e', 'p{${foo}}', 'ul>li*', '(', 'a{', 'div>p*2>span', 'lorem-', 'x.a.b', '!', 'table>tr>td', '[', 'input:t', 'p{$#}', '.b>.-e_m', 'ul>li[title=$#]*',
-                'btn', 'h$[t=$$]*2', 'em>b', 'div#a.b', 'form:post', 'br', 'img', 'cc:ie', 'p>{a}+{b}', 'lorem-box', 'ul>lorem_item*2', 'lorem5x>b', 'x-badge>.count', 'em>.a', 'div>em>.a', 'my-el>.k+[t]',
+                'btn', 'doc', 'v', 'v>em', 'html:xt', 'h$[t=$$]*2', 'em>b', 'div#a.b', 'form:post', 'br', 'img', 'cc:ie', 'p>{a}+{b}', 'lorem-box', 'ul>lorem_item*2', 'lorem5x>b', 'x-badge>.count', 'em>.a', 'div>em>.a', 'my-el>.k+[t]',
                 'a[title=$#]*', 'p>{$#}', 'section>p']
 CSS_ABBRS = ['p10', 'm10-20', 'foo', 'bar', 'w100p', 'c#f', 'pos:a', 'bd1-s', 'lh1.5', 'foo5', 'z10', '(', 'p$', 'fl', 'd:n', 'op.5', 'lg(to right, #0, #f.5)', 'bar2', 'trf:r', 'trf:s(2)', 'trf:scale', 'trf:s', 'trf:t(1, 2)', 'trf:t', 'p10r', 'w5p']
 NESTED_BAD = {'snippets': {'menu': 'nav>item', 'item': 'li[title="]', 'box': 'div>menu'}}          # resolving `item` raises a parse error in the middle of nested resolution
@@ -19,7 +19,7 @@ MARKUP_CFGS = [{}, {'syntax': 'jsx'}, {'options': {'bem.enabled': True}}, {'text
                {'options': {'comment.enabled': True}}, {'snippets': {'x': 'p+q', 'btn': 'button.btn'}}, {'syntax': 'xsl'}, {'maxRepeat': 2}, {'variables': {'foo': 'bar'}},
                {'options': {'bem.enabled': True, 'bem.element': '--'}, 'text': ['l1', 'l2']}, {'text': ['  first line', '      second line', '  third line']},
                {'options': {'inlineElements': ['x-badge', 'my-el', 'a']}}, {'options': {'inlineElements': []}}, {'context': {'name': 'strong'}}, {'context': {'name': 'x-badge'}, 'options': {'inlineElements': ['x-badge']}},
-               {'text': []}, {'text': ''}, {'text': ['']}, {'text': ['', '  ']}]
+               {'text': []}, {'text': ''}, {'text': ['']}, {'text': ['', '  ']}, {'variables': {'lang': 'fr', 'charset': 'koi8-r'}}, {'variables': {'lang': 'de'}, 'snippets': {'v': 'p[lang=${lang}]{${foo}}'}}, {'snippets': {'v': 'p[lang=${lang}]{${foo}}'}}]
 # global configurations (third argument of expand): they are arguments of the call like the others
 MARKUP_GLOBS = [{}, {'markup': {'options': {'output.indent': '  '}}}, {'markup': {'snippets': {'x': 'a+b', 'btn': 'button.g'}}}, {'html': {'variables': {'lang': 'fr', 'foo': 'glob'}}},
                 {'markup': {'options': {'output.selfClosingStyle': 'xhtml'}}, 'html': {'options': {'output.attributeQuotes': 'single'}}}, {'jsx': {'options': {'output.indent': '    '}}}]
@@ -50,7 +50,8 @@ def cases(tier, seed, prop):
             if tbl: pool_a = ['foo', 'bar', 'foo5', 'bar2', 'p10', 'foo', 'bar']      # the user snippets with numeric defaults
         else:
             cfgs = [copy.deepcopy(rnd.choice(pool_c)) for _ in range(k)]
-            shared_cache = css and all(c.get('snippets') == cfgs[0].get('snippets') for c in cfgs) and rnd.random() < .5
+            # (a markup expansion has no use for the cache: sharing one between any markup configurations changes nothing)
+            shared_cache = (css and all(c.get('snippets') == cfgs[0].get('snippets') for c in cfgs) and rnd.random() < .5) or (not css and rnd.random() < .4)
         as_object = [rnd.random() < .4 for _ in cfgs]
         hist = []
         if not css and rnd.random() < .12:
@@ -98,6 +99,14 @@ def cases(tier, seed, prop):
                 hist.append({'s': rnd.choice(['bgz', 'posx', 'bgz:zeb', 'bg:zig', 'pos:st']), 'cfg': 0, 'cache': False})
             probe = {'s': rnd.choice(['bg:zig', 'bg:zeb', 'pos:st', 'pos:fl', 'bg:n']), 'cfg': 1, 'cache': False}
             out.append({'cfgs': cfgs, 'as_object': as_object, 'hist': hist, 'probe': probe, 'g': 'css-nesting'})
+            continue
+        if css and rnd.random() < .15:
+            # stylesheet snippets that arrive through the global configuration in some calls and not in others (no cache, no snippets of the call's own)
+            cfgs = [{'type': 'stylesheet'}, {'type': 'stylesheet', 'syntax': 'scss'}]; as_object = [False, False]; k = 2; shared_cache = False
+            gl = [{}, {'stylesheet': {'snippets': {'foo': 'foo-glob:1', 'p': 'p-glob:x'}}}, {'css': {'snippets': {'foo': 'foo-css:2', 'zz': 'zz-prop:a|b'}}}]
+            hist = [{'s': rnd.choice(['foo', 'p10', 'zz', 'm5', 'foo5', 'p']), 'cfg': rnd.randrange(2), 'cache': False, 'glob': rnd.randrange(3)} for _ in range(rnd.randint(1, 5))]
+            probe = {'s': rnd.choice(['foo', 'p10', 'zz', 'p', 'foo5']), 'cfg': rnd.randrange(2), 'cache': False, 'glob': rnd.randrange(3)}
+            out.append({'cfgs': cfgs, 'as_object': as_object, 'hist': hist, 'probe': probe, 'globs': gl, 'g': 'css-global-snippets'})
             continue
         globs = None
         if not shared_cache and rnd.random() < .3:
